@@ -16,7 +16,8 @@
 (* keyperimpl/snapshot/trigger.go, gnosisaccessnode/decryptionkeyshandler.go*)
 (* p2p/message.go, p2pmsg/messages.go.                                     *)
 (*                                                                         *)
-(* A CASE c = [fl, topic, m, bytes, recv, mode, ver, tp, instv]:            *)
+(* A CASE c = [fl, topic, m, bytes, recv, mode, ver, tp, instv, trace,      *)
+(*             tracing]:                                                    *)
 (*  fl     node flavour                                                    *)
 (*  topic  the subscribed topic the delivery arrives on                    *)
 (*  m      the structured message class (type m.ty; m.ty # topic: a        *)
@@ -24,6 +25,11 @@
 (*  bytes  byte-level class applied to the envelope bytes of m afterwards: *)
 (*         none | truncate | flipBit | lengthInflate | emptyEnvelope |     *)
 (*         wrongAnyType | nestedAny | randomBytes                          *)
+(*  recv   receiver state (besides the ones below): "setonly" = of the     *)
+(*         named set only the chain side is known (keyper_set row / keyper *)
+(*         set in the Storage), "keyonly" = only the key side (core keyper *)
+(*         tables with the DKG result / eon key in the Storage); in both a *)
+(*         second set is fully known                                       *)
 (*  recv   receiver state: "empty" (fresh database / empty storage),       *)
 (*         "ready" (keyper set 1 known, receiver member, DKG succeeded,    *)
 (*         collator / eon rows present), "primed" (ready + keys, one share *)
@@ -41,6 +47,13 @@
 (*         refuses everything but ok (libp2p itself only hands ok)         *)
 (*  instv  the instance id carried when m.inst is FALSE: p1 (ours + 1) |   *)
 (*         m1 | zero | p63 (2^63) | max (2^64 - 1); p1 when m.inst is TRUE *)
+(*  trace  class of the optional Envelope.trace field (outside everything   *)
+(*         signed or validated): absent | ok (16-byte trace id, 8-byte span *)
+(*         id, 1 flag byte) | tid0 tid15 tid17 | sid0 sid7 sid9 | fl0 fl2   *)
+(*         (lengths of the three fields) | empty (present, all fields empty)*)
+(*  tracing node mode: "on" = trace.SetEnabled() as the tracing option of   *)
+(*         the commands does; only then Unmarshal hands the trace context   *)
+(*         on and P2PMessaging.handle (P2P # nil) calls ExtractTraceContext *)
 (*  mode   how the delivery is executed (the code-shaped outcome does not   *)
 (*         depend on it):                                                  *)
 (*         "handle"  combined validator, then P2PMessaging.Handle          *)
@@ -94,7 +107,8 @@ CONSTANTS N, T, MaxN, SenderCheck, LenRule, BidSigCheck
 
 Flavours    == {"core", "gnosis", "service", "primev", "snapshot", "access"}
 ByteClasses == {"none", "truncate", "flipBit", "lengthInflate", "emptyEnvelope", "wrongAnyType", "nestedAny", "randomBytes"}
-RecvStates  == {"empty", "ready", "primed"}
+RecvStates  == {"empty", "ready", "primed", "setonly", "keyonly"}
+TraceClasses == {"absent", "ok", "tid0", "tid15", "tid17", "sid0", "sid7", "sid9", "fl0", "fl2", "empty"}
 EntClasses  == {"one", "two", "none", "many", "unordered", "invalid", "badlen", "undecodable"}
 
 Topics(fl) ==
@@ -122,7 +136,13 @@ NSigs(m) ==
       [] m.nsigs = "more"  -> SignersLen(m.signers) + 1
 
 (* the receiver knows keyper set / config / eon key of the eon the message names *)
-SetKnown(c) == c.recv # "empty" /\ c.m.set = "MemberOk"
+(* what the receiver knows about the set the message names.  The two kinds of knowledge come from
+   different sources and arrive at different times (the window while a key generation runs):
+   KeyKnown  the key side: tendermint_batch_config / eons / dkg_result of the core keyper tables,
+             the eon public key in the access node's Storage
+   KSetKnown the chain side: chainobserver's keyper_set row, the keyper set in the Storage *)
+KeyKnown(c)  == c.recv \in {"ready", "primed", "keyonly"} /\ c.m.set = "MemberOk"
+KSetKnown(c) == c.recv \in {"ready", "primed", "setonly"} /\ c.m.set = "MemberOk"
 
 ----------------------------------------------------------------------------
 (* validators: "accept" | "reject" | "panic" *)
@@ -132,7 +152,7 @@ CoreSharesV(c) ==
     LET m == c.m IN
     IF ~m.inst THEN "reject"
     ELSE IF m.set = "Overflow" THEN "reject"
-    ELSE IF ~SetKnown(c) THEN "reject"                         \* GetBatchConfig / not a keyper / no DKG result
+    ELSE IF ~KeyKnown(c) THEN "reject"                         \* GetBatchConfig / not a keyper / no DKG result
     ELSE IF Count(m.ents) = 0 THEN "reject"
     ELSE IF Count(m.ents) > MaxN THEN "reject"
     ELSE IF m.snd >= N THEN (IF SenderCheck = "checked" THEN "reject" ELSE "panic")
@@ -145,7 +165,7 @@ CoreKeysV(c) ==
     LET m == c.m IN
     IF ~m.inst THEN "reject"
     ELSE IF m.set = "Overflow" THEN "reject"
-    ELSE IF ~SetKnown(c) THEN "reject"
+    ELSE IF ~KeyKnown(c) THEN "reject"
     ELSE IF Count(m.ents) = 0 THEN "reject"
     ELSE IF Count(m.ents) > MaxN THEN "reject"
     ELSE IF ~Ordered(m.ents) THEN "reject"
@@ -165,7 +185,7 @@ GnosisSharesV(c) ==
     IF m.extra # "gnosis" THEN "reject"
     ELSE IF m.slot = "huge" THEN "reject"
     ELSE IF m.txp = "huge" THEN "reject"
-    ELSE IF ~SetKnown(c) THEN "reject"
+    ELSE IF ~KSetKnown(c) THEN "reject"
     ELSE IF m.snd >= N THEN "reject"
     ELSE IF ~SigOk(m, m.sig) THEN "reject"
     ELSE "accept"
@@ -174,7 +194,7 @@ GnosisSharesV(c) ==
 ServiceSharesV(c) ==
     LET m == c.m IN
     IF m.extra # "service" THEN "reject"
-    ELSE IF ~SetKnown(c) THEN "reject"
+    ELSE IF ~KSetKnown(c) THEN "reject"
     ELSE IF m.snd >= N THEN "reject"
     ELSE IF ~SigOk(m, m.sig) THEN "reject"
     ELSE "accept"
@@ -220,7 +240,7 @@ GnosisKeysBasic(m) ==
 (* gnosis.DecryptionKeysHandler.ValidateMessage *)
 GnosisKeysV(c) ==
     IF GnosisKeysBasic(c.m) # "accept" THEN "reject"
-    ELSE IF ~SetKnown(c) THEN "reject"
+    ELSE IF ~KSetKnown(c) THEN "reject"
     ELSE GnosisKeysSigs(c.m)
 
 (* shutterservice.ValidateDecryptionKeysSignatures + DecryptionKeysHandler.ValidateMessage *)
@@ -230,7 +250,7 @@ ServiceEmptyException(m) ==
 ServiceKeysV(c) ==
     LET m == c.m IN
     IF m.extra # "service" THEN "reject"
-    ELSE IF ~SetKnown(c) THEN "reject"
+    ELSE IF ~KSetKnown(c) THEN "reject"
     ELSE IF ServiceEmptyException(m) THEN "accept"
     ELSE GnosisKeysSigs(m)
 
@@ -241,11 +261,12 @@ AccessKeysV(c) ==
     ELSE IF m.set = "Overflow" THEN "reject"
     ELSE IF Count(m.ents) = 0 THEN "reject"
     ELSE IF Count(m.ents) > MaxN THEN "reject"
-    ELSE IF ~SetKnown(c) THEN "reject"                         \* storage.GetEonKey
+    ELSE IF ~KeyKnown(c) THEN "reject"                         \* storage.GetEonKey
     ELSE IF ~AllValid(m.ents) THEN "reject"
     ELSE IF ~Ordered(m.ents) THEN "reject"
     ELSE IF GnosisKeysBasic(m) # "accept" THEN "reject"
-    ELSE GnosisKeysSigs(m)                                     \* storage.GetKeyperSet: known with the eon key
+    ELSE IF ~KSetKnown(c) THEN "reject"                        \* storage.GetKeyperSet
+    ELSE GnosisKeysSigs(m)
 
 (* snapshot.DecryptionTriggerHandler.ValidateMessage *)
 TriggerV(c) ==
@@ -274,7 +295,7 @@ CommitmentH(c) ==
     IF BidSigLen(m.bidsig) < 65 THEN (IF BidSigCheck = "checked" THEN "error" ELSE "panic")
     ELSE IF m.bidsig \in {"garbage65", "long"} \/ m.digest # "ok" THEN "error"     \* crypto.SigToPub
     ELSE IF m.nids > 0 /\ m.badid # "none" THEN "error"                            \* hex.DecodeString
-    ELSE IF c.recv = "empty" \/ m.block # "known" THEN "error"                     \* GetEonForBlockNumber
+    ELSE IF c.recv \in {"empty", "setonly"} \/ m.block # "known" THEN "error"                     \* GetEonForBlockNumber
     ELSE IF m.nids = 0 THEN "error"                                                \* ARRAY_AGG over zero rows is NULL
     ELSE "ok"
 
@@ -332,6 +353,18 @@ HandleAll(hs, i, c, acc) ==
          IF r = "panic" THEN "panic"
          ELSE HandleAll(hs, i + 1, c, IF r = "error" THEN "error" ELSE acc)
 
+(* p2p.ExtractTraceContext as called by newSpanForReceive in P2PMessaging.handle: the three
+   lengths are checked before anything is indexed; an error is logged and handling goes on, so the
+   trace field never changes the outcome *)
+TraceLens(t) ==
+    CASE t = "ok" -> <<16, 8, 1>> [] t = "tid0" -> <<0, 8, 1>> [] t = "tid15" -> <<15, 8, 1>> [] t = "tid17" -> <<17, 8, 1>>
+      [] t = "sid0" -> <<16, 0, 1>> [] t = "sid7" -> <<16, 7, 1>> [] t = "sid9" -> <<16, 9, 1>>
+      [] t = "fl0" -> <<16, 8, 0>> [] t = "fl2" -> <<16, 8, 2>> [] OTHER -> <<0, 0, 0>>
+ExtractTrace(c) ==
+    IF c.tracing # "on" \/ c.mode # "send" \/ c.trace = "absent" THEN "skipped"
+    ELSE IF TraceLens(c.trace) # <<16, 8, 1>> THEN "error"
+    ELSE "ok"
+
 Out(v, h) == [v |-> v, h |-> h]
 Returning == {Out("reject", "none"), Out("ignore", "none"), Out("accept", "ok"), Out("accept", "error")}
 
@@ -341,6 +374,7 @@ Outcomes(c) ==
     IF c.bytes # "none" THEN Returning
     ELSE LET v == Validation(c) IN
          IF v # "accept" THEN {Out(v, "none")}
+         ELSE IF ExtractTrace(c) = "panic" THEN {Out("accept", "panic")}
          ELSE {Out("accept", HandleAll(HandlersOf(c.fl, c.m.ty), 1, c, "ok"))}
 
 =============================================================================
